@@ -11,6 +11,7 @@
 import PolyVerif.Model.Splat
 import PolyVerif.Lemmas.Splat
 import PolyVerif.Lemmas.Spz
+import PolyVerif.Gen.SplatPlyTable
 import PolyVerif.Lemmas.RealScalar
 import Mathlib.Analysis.SpecialFunctions.Log.Basic
 import Mathlib.Tactic
@@ -268,6 +269,21 @@ example : exHeader.inRange ∧ exHeader.valid = true ∧ [exPacked].length = exH
   simp [Packed.fits, exHeader, exPacked, posBytes, shDim]
 
 end spz
+
+/-! ## Part 3 — PLY splat export (tables regenerated from formats/ply/types.go and reader.go on every run) -/
+
+section splatply
+open Gen.SplatPlyTable
+
+/-- every one of the five splat attributes is written by `SplatPly.Write` as a float32 property group whose
+    names are exactly a group under which `ply.ReadMesh`'s default reader loads that same attribute, and no two
+    written properties share a name -/
+theorem splatply_table_matches :
+    (∀ a ∈ splatAttributes, ∃ w ∈ writer, w.1 = a ∧ w.2.1 = "float" ∧ (a, w.2.2) ∈ reader) ∧
+    (writer.flatMap (·.2.2)).Nodup := by
+  decide
+
+end splatply
 
 end C15
 end PolyVerif
